@@ -85,7 +85,12 @@ def configs(tier):
                                             continue
                                         if entry == "node-renamed" and (bcast or nparams > 2):
                                             continue
-                                        yield dict(kind=kind, nparams=nparams, mode=mode, lens=list(lens), bcast=bcast, clone=clone, fail=list(fail), eh=eh, entry=entry)
+                                        orders_ = ["same"]
+                                        if nparams >= 2 and not fail and not bcast and entry != "node-renamed":
+                                            # the combination order is defined by map_over, not by how the caller's dict happens to be ordered
+                                            orders_ += ["values-dict-reversed", "map_over-reversed"]
+                                        for order in orders_:
+                                            yield dict(kind=kind, nparams=nparams, mode=mode, lens=list(lens), bcast=bcast, clone=clone, fail=list(fail), eh=eh, entry=entry, order=order)
 
 
 def _prod(xs):
@@ -110,7 +115,14 @@ def materialize(cfg):
     inputs = {p: [list(v) for v in l] for p, l in zip(ps, lists)}
     if cfg["bcast"]:
         inputs["cfg"] = {"$list": ["cfgval"]}
-    cs = combos(cfg["mode"], lists)
+    order = cfg.get("order", "same")
+    if order == "values-dict-reversed":
+        inputs = dict(reversed(list(inputs.items())))
+    if order == "map_over-reversed":
+        # map_over lists the parameters in reverse: the FIRST LISTED one varies slowest
+        ps = list(reversed(ps))
+        lists = list(reversed(lists))
+    cs = [dict(zip(ps, c)) for c in combos(cfg["mode"], lists)]
     return inner, ps, inputs, cs
 
 
@@ -119,11 +131,10 @@ def single_results(inner, ps, cs, bcast, runner):
     out = []
     for combo in cs:
         h = H()
-        ins = dict(zip(ps, combo))
+        ins = dict(combo)
         if bcast:
             ins["cfg"] = ["cfgval"]
         p = T.set_async(inner, runner == "async")
-        x = execute(p, {}, runner=runner, h=h, graph=None, error_handling="continue", **{}) if False else None
         g = build(p, h)
         from ..dsl import run_async, run_sync
 
